@@ -193,6 +193,8 @@ type World struct {
 	HT        *server.Honeytrap
 	TmpDir  string
 	PreBoot func(dir string)
+	// SendHook lets an engine deliver the segments of "send" ops itself (returns true when it did)
+	SendHook func(actor int, seg []byte) bool
 	// Custom executes engine-specific op kinds (emit, frame, ...)
 	Custom func(w *World, actor int, op Op)
 }
@@ -492,7 +494,12 @@ func (w *World) microStep(i int, c *cursor) {
 			}
 		}
 		seg := c.segs[c.seg]
-		switch a.Kind {
+		kind := a.Kind
+		if w.SendHook != nil && w.SendHook(i, seg) {
+			kind = "hooked"
+			co.Sent += len(seg)
+		}
+		switch kind {
 		case "tcp":
 			if ep := w.eps[i]; ep != nil {
 				ep.PeerInject(seg)
